@@ -75,6 +75,7 @@ func vfBackendConn(specs []vfSvcSpec) *grpc.ClientConn {
 	files := new(protoregistry.Files)
 	seen := map[string]bool{}
 	srv := grpc.NewServer()
+	var ccp *grpc.ClientConn
 	for _, sp := range specs {
 		if !seen[sp.file] {
 			seen[sp.file] = true
@@ -91,8 +92,12 @@ func vfBackendConn(specs []vfSvcSpec) *grpc.ClientConn {
 			}
 		}
 		sd := &grpc.ServiceDesc{ServiceName: sp.full, HandlerType: (*interface{})(nil), Metadata: sp.file}
+		reqD, _ := files.FindDescriptorByName(protoreflect.FullName("vf." + sp.reqName))
+		respD, _ := files.FindDescriptorByName(protoreflect.FullName("vf.Resp" + sp.reqName))
 		for _, ms := range sp.methods {
-			sd.Methods = append(sd.Methods, grpc.MethodDesc{MethodName: ms.name, Handler: vfNativeBackendUnary})
+			// every method is served by the scripted backend application (h_proxy.go)
+			h := vfNativeProxyHandler(func() *vfProxyBackend { return vfProxyTable[ccp] }, ms.cs, reqD.(protoreflect.MessageDescriptor), respD.(protoreflect.MessageDescriptor))
+			sd.Streams = append(sd.Streams, grpc.StreamDesc{StreamName: ms.name, Handler: h, ClientStreams: ms.cs, ServerStreams: ms.ss})
 		}
 		srv.RegisterService(sd, struct{}{})
 	}
@@ -106,6 +111,7 @@ func vfBackendConn(specs []vfSvcSpec) *grpc.ClientConn {
 	if err != nil {
 		panic(err)
 	}
+	ccp = cc
 	vfNativeCleanup = append(vfNativeCleanup, func() { cc.Close(); srv.Stop() })
 	return cc
 }
